@@ -42,6 +42,18 @@ def build_items_rs(unit, work):
     order = []
     meta = json.load(open(os.path.join(unit_dir, "unit.json")))
     all_items = [seg[1] for seg in segs if seg[0] == "item" and seg[1]["kind"] != "region"]
+    # "replay_file_head": the ORIGINAL text of a /repo file from its first line up to (not including) the line containing the
+    # anchor: for files whose statics / tables the replay needs as a whole.  Items of that file are then not extracted one by one.
+    head = meta.get("replay_file_head")
+    head_text = None
+    if head:
+        src = open(os.path.join(vf.REPO, head["file"])).read()
+        cut = src.find(head["until"])
+        if cut < 0:
+            raise X.ExtractError("replay_file_head: anchor %r not found in %s" % (head["until"], head["file"]))
+        cut = src.rfind("\n", 0, cut) + 1
+        head_text = "\n".join(l for l in src[:cut].split("\n") if not l.startswith("//!"))
+        all_items = [a for a in all_items if a["file"] != head["file"]]
     # extra items only the replay build needs (whole functions outside the Verus subset compile fine with rustc)
     all_items += meta.get("replay_items", [])
     seen = set()
@@ -78,6 +90,8 @@ def build_items_rs(unit, work):
         ex = X.extract_region(os.path.join(vf.REPO, rr["file"]), rr["in"], rr.get("impl"), rr["from"], rr["to"], int(rr.get("from_nth", 0)), int(rr.get("to_nth", 0)), rr.get("to_exclusive") == "yes")
         free.append(rr["header"] + "\n" + ex["text"] + "\n" + rr["footer"])
     out = ["// generated on every run from /repo's working tree: ORIGINAL item text (only serde derives/attributes removed from types)"]
+    if head_text is not None:
+        out.append(head_text)
     out += types
     for im in order:
         out.append("impl %s {" % im)
